@@ -370,10 +370,12 @@ class RenderAnnotation(GenericTypeRewriter[str]):
 
     def rewrite(self, typ: type) -> str:
         rendered = super().rewrite(typ)
+        # Only touch whole names: "mytyping.Foo" and a class called "NoneTypeish"
+        # are somebody else's names.
         if getattr(typ, "__module__", None) == "typing":
-            rendered = rendered.replace("typing.", "")
+            rendered = re.sub(r"(?<![\w.])typing\.", "", rendered)
         # Temporary hacky workaround for #76 to fix remaining NoneType hints by search-replace
-        rendered = rendered.replace("NoneType", "None")
+        rendered = re.sub(r"(?<![\w.])NoneType(?!\w)", "None", rendered)
         return rendered
 
 
